@@ -193,7 +193,7 @@ func replayLeaf(c *Check, g genCfg, t *genTable, rp *rulesReplayer, lf genLeaf) 
 	}
 	key := fmt.Sprint(g.Label, lf.H)
 	c.Count(key, nontrivial)
-	if len(lf.H) >= 5 && lf.St != "ok" {
+	if len(lf.H) >= 3 {
 		c.Sample(map[string]interface{}{"behaviour": evsString(evs), "expected": lf.St, "check": g.Label})
 	}
 
